@@ -1,16 +1,15 @@
 """C09 — implicit print is added exactly when no action is present."""
 import json
 
-from .. import facts as F
+from .. import emit, facts as F
 from .. import rx, treeq, codegen
 from ..facts import src, psrc, find_all
 
 
 def compile_fn(facts):
-    for k, fn in facts.fns.items():
-        if fn.name == "compile" and fn.impl is None and not fn.test and fn.node["vis"] == "pub":
-            return fn
-    raise F.AnchorMissing("public compile function")
+    from .. import toplevel
+
+    return toplevel.compile_fn(facts)
 
 
 def premises_hold(facts):
@@ -69,47 +68,36 @@ def run(c, facts, tier):
             bad.append("%s (derives %s, manual impls %d)" % (tname, facts.derives(d_), len(manual)))
     c.ob("C09.wrap", "ast", "cloning an expression yields an equal expression (derived Clone on every AST type)", not bad, "not derived / hand-written: %s" % bad if bad else "%d AST types derive Clone and PartialEq" % len(ast_types), nontrivial=False)
     comp = compile_fn(facts)
-    expname = comp.params[0][0]
-    # let target = if !exp.action() { wrap } else { exp.clone() };
-    tgt = None
-    for st in comp.body["stmts"]:
-        if st["k"] == "let" and st["init"] is not None and st["init"]["k"] == "if":
-            cond = st["init"]["cond"]
-            if find_all(cond, lambda n: n.get("k") == "mcall" and n["m"] == fa.name):
-                tgt = st
-    if tgt is None:
-        c.ob("C09.wrap", comp.key, "conditional wrap present", False, "no `if … action()` selecting the compiled target in %s" % comp.key, witness="-true  (nothing would be printed)")
+    from .. import toplevel
+
+    T = toplevel.summary(facts)
+    act = "@0.%s()" % fa.name
+    WRAP = "Expression::Operator(Operator::And(@0,Expression::Action(Action::DefaultPrint)))"
+    paths = T["paths"]
+    unk = sorted({u for p_ in paths for u in p_["unknown"]})
+    branched = bool(paths) and all(act in p_["conds"] for p_ in paths)
+    c.ob("C09.wrap", comp.key, "conditional wrap present", branched and not unk, ("every path of %s branches on %s of the input expression" % (comp.key, act)) if branched else "no branch on `%s` of the input selects the compiled target in %s" % (act, comp.key), witness="-true  (nothing would be printed)" if not branched else None)
+    if not branched:
         return
-    iff = tgt["init"]
-    cond = iff["cond"]
-    neg = cond["k"] == "unary" and cond["op"] == "!"
-    call = cond["e"] if neg else cond
-    call_ok = call["k"] == "mcall" and call["m"] == fa.name and rx.is_var(call["recv"], expname) and not call["args"]
-    wrap_branch, keep_branch = (iff["then"], iff["else"]) if neg else (iff["else"], iff["then"])
-    c.ob("C09.wrap", comp.key, "condition is action() of the input expression", call_ok, "condition `%s` on parameter `%s`" % (src(cond), expname))
-    wb = rx.peel(wrap_branch) if wrap_branch is not None else None
-    ok = False
-    det = "wrap branch: %s" % (src(wb) if wb else None)
-    if wb is not None:
-        chain, args = rx.ctor_chain(wb)
-        if chain and args is not None and len(args) == 2:
-            names = [x.split("::")[-1] for x in chain]
-            a1 = rx.peel(args[1])
-            ok = names[0] == "Operator" and names[-1] == "And" and rx.is_var(args[0], expname) and src(a1) in ("Expression::Action(Action::DefaultPrint)",)
+    def targets(val):
+        out = set()
+        for p_ in paths:
+            if p_["conds"].get(act) is val:
+                cs = [c_ for c_ in p_["calls"] if c_["method"] == "compile"]
+                out.add(tuple(emit.canon(c_["recv"]) for c_ in cs))
+        return out
+    tw, tk = targets(False), targets(True)
     c.ob(
         "C09.wrap",
         comp.key,
         "no action ⇒ And(whole expression, Action(DefaultPrint))",
-        ok,
-        det + " — the whole input must be the single left operand so the print binds looser than anything inside",
-        witness="-false -o -true  (must print exactly when the OR is true)" if not ok else None,
+        tw == {(WRAP,)},
+        "when %s is false the expression compiled is %s — the whole input must be the single left operand so the print binds looser than anything inside" % (act, sorted(tw)),
+        witness="-false -o -true  (must print exactly when the OR is true)" if tw != {(WRAP,)} else None,
     )
-    kb = rx.peel(keep_branch) if keep_branch is not None else None
-    c.ob("C09.wrap", comp.key, "some action ⇒ expression unchanged", kb is not None and rx.is_var(kb, expname), "other branch: %s" % (src(kb) if kb else None))
-    tname = rx.pat_bindings(tgt["pat"])
-    uses = find_all(comp.body, lambda n: n.get("k") == "mcall" and n["m"] == "compile" and tname and rx.is_var(n["recv"], tname[0]))
-    other = find_all(comp.body, lambda n: n.get("k") == "mcall" and n["m"] == "compile" and rx.is_var(n["recv"], expname))
-    c.ob("C09.wrap", comp.key, "the selected target is what gets compiled", len(uses) == 1 and not other, "compile() is called on %s (%d site), on the raw input %d time(s)" % (tname, len(uses), len(other)))
+    c.ob("C09.wrap", comp.key, "some action ⇒ expression unchanged", tk == {("@0",)}, "when %s is true the expression compiled is %s" % (act, sorted(tk)))
+    ncalls = {len([c_ for c_ in p_["calls"] if c_["method"] == "compile"]) for p_ in paths if p_["outcome"] == "ok"}
+    c.ob("C09.wrap", comp.key, "the selected target is what gets compiled", ncalls == {1}, "compile() invocations per successful path: %s (exactly one, on the selected target)" % sorted(ncalls))
     # C09.default
     rows = codegen.expand(codegen.table(facts, "<Action as TargetScheme>::compile"))
     dp = rows.get("self∈Action::DefaultPrint")
